@@ -153,7 +153,7 @@ func runC07(run *Run, replay string) {
 		if bi%4 == 3 {
 			max = 3
 		}
-		opts := ScenarioOpts{Histories: hist, Inject: bi%3 == 1, Gen: GenOpts{Degenerate: bi%7 == 6, DynFocus: bi%8 == 5}}
+		opts := ScenarioOpts{Histories: hist, Inject: bi%3 == 1, Gen: GenOpts{Degenerate: bi%7 == 6, DynFocus: bi%4 == 1}}
 		if bi%5 == 1 {
 			opts.Gen.MaxDepth = 3
 		}
